@@ -27,7 +27,7 @@ If(c, name) == IF c THEN {name} ELSE {}
 VerdictOf ==
   [ C03 |-> {"int_out_of_bounds", "float_out_of_bounds", "float_nan", "float_inf_unbounded", "length_out_of_bounds", "keys_not_distinct",
              "element_out_of_contract", "string_limits", "invalid_utf8", "not_a_permutation", "input_modified", "predicate_false",
-             "wrong_type", "internal_assertion", "filter_predicate_false", "hangs"},
+             "wrong_type", "internal_assertion", "filter_predicate_false", "hangs", "value_modified_after_draw"},
     C12 |-> {"not_minimal_integer", "not_minimal_length", "elements_not_zero", "minimization_lost_failure"},
     C18 |-> {"value_unreachable", "edge_not_hit", "seed_repeated", "cases_repeat", "float_edge_not_hit", "constructor_panicked"} ]
 Verdicts == IF Property = "ALL" THEN UNION { VerdictOf[p] : p \in DOMAIN VerdictOf } ELSE VerdictOf[Property]
@@ -51,6 +51,8 @@ Has(f) == f \in DOMAIN Ev
 
 V_Contract ==
   If(Has("typeok") /\ ~Ev.typeok, "wrong_type")
+  \* (a value drawn earlier in the test case no longer is what it was when it was drawn)
+  \cup If(Ev.c = "kept" /\ ~Ev.ok, "value_modified_after_draw")
   \cup If(Has("filterok") /\ ~Ev.filterok, "filter_predicate_false")
   \cup (CASE Ev.c = "int" -> If(~(LE(Ev.min.l, Ev.v.l) /\ LE(Ev.v.l, Ev.max.l)), "int_out_of_bounds")
           [] Ev.c = "float" ->
